@@ -33,6 +33,9 @@ func (o op) String() string {
 	}
 	if o.K == "block" || o.K == "release" {
 		s += fmt.Sprintf(" slot%d", o.Slot)
+		if o.How != "" {
+			s += " then-" + o.How
+		}
 	}
 	if o.Fail >= 0 {
 		s += fmt.Sprintf(" fail=a%d/slot%d wait=%v", o.FailApp, o.Fail, o.FailWait)
@@ -52,10 +55,12 @@ type mApp struct {
 	stopCause  string
 	stopAccept []error
 	blocked    map[int]bool // slot -> kept busy inside a handler
-	mode       gen.ApplicationMode
-	alive      map[int]bool // slot -> alive (current run)
-	stopped    int          // number of completed runs
-	att        int32        // attempt number of the current run
+	// reasons of members that terminated on their own while the application was already stopping
+	laterReasons []error
+	mode         gen.ApplicationMode
+	alive        map[int]bool // slot -> alive (current run)
+	stopped      int          // number of completed runs
+	att          int32        // attempt number of the current run
 	// reasons of earlier stops (to recognise a stale reason)
 	pastReasons []error
 }
@@ -68,6 +73,7 @@ type expect struct {
 	cause       string // death-permanent death-transient last-member stop force
 	newSlots    []int
 	failedStart bool
+	later       []error // reasons of deaths after the stop had begun
 }
 
 const (
@@ -158,6 +164,7 @@ func (h *hist) snapshot() []*mApp {
 		}
 		c.pastReasons = append([]error(nil), a.pastReasons...)
 		c.stopAccept = append([]error(nil), a.stopAccept...)
+		c.laterReasons = append([]error(nil), a.laterReasons...)
 		c.blocked = map[int]bool{}
 		for k, v := range a.blocked {
 			c.blocked[k] = v
@@ -165,6 +172,21 @@ func (h *hist) snapshot() []*mApp {
 		r = append(r, &c)
 	}
 	return r
+}
+
+// mDeath: a member of a running application terminates with reason
+func (h *hist) mDeath(x, slot int, reason error, exm map[int]*expect) {
+	ma := h.m[x]
+	delete(ma.alive, slot)
+	delete(ma.blocked, slot)
+	switch {
+	case ma.mode == gen.ApplicationModePermanent:
+		h.mBeginStop(x, exm, "death-permanent", reason)
+	case ma.mode == gen.ApplicationModeTransient && isAbnormal(reason):
+		h.mBeginStop(x, exm, "death-transient", reason)
+	case len(ma.alive) == 0:
+		h.mStop(x, h.ex(exm, x), "last-member", gen.TerminateReasonNormal, reason)
+	}
 }
 
 // mBeginStop: a stop begins (request or mode rule). Members not kept busy terminate; if busy
@@ -184,6 +206,7 @@ func (h *hist) mBeginStop(x int, exm map[int]*expect, cause string, accept ...er
 	a.stopping = true
 	a.stopCause = cause
 	a.stopAccept = accept
+	a.laterReasons = nil
 }
 
 func (h *hist) mStop(x int, e *expect, cause string, accept ...error) {
@@ -196,6 +219,8 @@ func (h *hist) mStop(x int, e *expect, cause string, accept ...error) {
 	e.term = true
 	e.accept = accept
 	e.cause = cause
+	e.later = a.laterReasons
+	a.laterReasons = nil
 }
 
 // genOp picks the next operation from the model state (a function of seed and earlier ops only)
@@ -309,6 +334,7 @@ func (h *hist) genOpB(rng *rand.Rand, step int) op {
 		switch {
 		case p < 30:
 			o.K, o.Slot = "release", busy[rng.Intn(len(busy))]
+			o.How = []string{"", "", "custom", "kill", "panic", "normal"}[rng.Intn(6)]
 		case p < 60:
 			o.K = "unload"
 		case p < 72:
@@ -329,6 +355,7 @@ func (h *hist) genOpB(rng *rand.Rand, step int) op {
 			o.K, o.Slot, o.How = "death", free[rng.Intn(len(free))], hows[rng.Intn(len(hows))]
 		case p < 70:
 			o.K, o.Slot = "release", busy[rng.Intn(len(busy))]
+			o.How = []string{"", "", "", "custom", "kill", "panic", "normal"}[rng.Intn(7)]
 		case p < 80 && len(free) > 0:
 			o.K, o.Slot = "block", free[rng.Intn(len(free))]
 		case p < 90:
@@ -469,25 +496,25 @@ func (h *hist) step(i int, o op) bool {
 	case "release":
 		victim = h.currentMembers(x)[o.Slot]
 		delete(ma.blocked, o.Slot)
-		if ma.stopping {
-			// the member leaves its handler and finds the exit signal (or has been killed meanwhile)
+		r2 := reasonOfRelease(o.How)
+		switch {
+		case ma.stopping:
+			// the member leaves its handler and terminates: with its own reason (o.How), else by the
+			// exit signal waiting in its mailbox / the kill of a forced stop. A death while the
+			// application is already stopping does not change the reason of the stop.
+			if r2 != nil {
+				ma.laterReasons = append(ma.laterReasons, r2)
+			}
 			delete(ma.alive, o.Slot)
 			if len(ma.alive) == 0 {
 				h.mStop(x, h.ex(exm, x), ma.stopCause, ma.stopAccept...)
 			}
+		case ma.running && r2 != nil:
+			h.mDeath(x, o.Slot, r2, exm)
 		}
 	case "death":
 		victim = h.currentMembers(x)[o.Slot]
-		reason := reasonOfHow(o.How)
-		delete(ma.alive, o.Slot)
-		switch {
-		case ma.mode == gen.ApplicationModePermanent:
-			h.mBeginStop(x, exm, "death-permanent", reason)
-		case ma.mode == gen.ApplicationModeTransient && isAbnormal(reason):
-			h.mBeginStop(x, exm, "death-transient", reason)
-		case len(ma.alive) == 0:
-			h.mStop(x, h.ex(exm, x), "last-member", gen.TerminateReasonNormal, reason)
-		}
+		h.mDeath(x, o.Slot, reasonOfHow(o.How), exm)
 	}
 
 	// --- execute
@@ -552,7 +579,7 @@ func (h *hist) step(i int, o op) bool {
 			return false
 		}
 		if o.K == "release" {
-			app.releaseMember(victim.I.PID)
+			app.releaseMemberWith(victim.I.PID, o.How)
 		} else if !app.blockMember(victim.I.PID) {
 			if len(r.viols) == 0 {
 				r.incon = pre + "watchdog: member did not enter the blocking handler"
@@ -700,7 +727,15 @@ func (h *hist) step(i int, o op) bool {
 					}
 				}
 				sig := "terminate-reason-wrong-" + e.cause
+				overwritten := false
+				for _, l := range e.later {
+					if l == got {
+						overwritten = true
+					}
+				}
 				switch {
+				case overwritten && strings.HasPrefix(e.cause, "death"):
+					sig = "terminate-reason-overwritten-by-later-death"
 				case e.cause == "force":
 					sig = "stopforce-terminate-reason-not-kill"
 				case stale && got != gen.TerminateReasonNormal:
